@@ -38,8 +38,8 @@ BITPOS = [0, 1, 7, 8, 31, 32, 63, 64, 65, 127, 128, 129, 191, 192, 193, 253, 254
 BITPOS_Q = [0, 1, 63, 64, 128, 254, 255]
 QUICK = [False]
 
-SRC = ("oracle.c", "ops_bn.c", "ops_fp.c", "ops_ep.c", "ops_md.c", "ops_cp.c")
-DEFS = ("ORACLE_FP", "ORACLE_EP", "ORACLE_MD", "ORACLE_EXTRA1=ops_cp")
+SRC = ("oracle.c", "ops_bn.c", "ops_fp.c", "ops_ep.c", "ops_md.c", "ops_cp.c", "ops_cpp.c")
+DEFS = ("ORACLE_FP", "ORACLE_EP", "ORACLE_MD", "ORACLE_EXTRA1=ops_cp", "ORACLE_EXTRA2=ops_cpp")
 
 
 def _exe(ctx, cfg="base"):
@@ -570,10 +570,26 @@ def gen_vbnn(ctx, exe, cid, cv, scale, pool, lvl=2):
     return lines
 
 
+CAPBITS = 34 * 64 - 6     # a scalar that fills the bn capacity of the pinned configuration (RLC_BN_SIZE digits): inner products overflow
+
+
 def gen_sok(ctx, exe, cid, cv, scale, pool, lvl=2):
     rng, n = ctx.rng, cv.n
     pre = ["ep_param %d" % cid]
     lines = []
+    # responses / challenges so long that the arithmetic inside the verifier fails: a failed verification is not a valid proof
+    big = (1 << CAPBITS) + rng.bits(64)
+    yv = cv.mul(cv.g, rnd_scalar(rng, n))
+    c = rnd_scalar(rng, n)
+    lines.append("pokdl_ver %x %x %s" % (c, big, pt(yv)))
+    lines.append("sokdl_ver %x %x %s %s" % (c, big, bx(b"any message"), pt(yv)))
+    lines.append("pokor_ver %x %x %x %x %s %s" % (c, c, big, c, pt(yv), pt(cv.g)))
+    lines.append("sokor_ver %x %x %x %x %s %s %s - -" % (c, c, c, big, bx(b"any message"), pt(yv), pt(cv.g)))
+    if lvl == 2:
+        lines.append("pokdl_ver %x %x %s" % (big, c, pt(yv)))
+        lines.append("pokor_ver %x %x %x %x %s %s" % (big, c, c, c, pt(yv), pt(cv.g)))
+        for b in (1000, 2000, 2100, CAPBITS - 64, CAPBITS + 5):
+            lines.append("pokdl_ver %x %x %s" % (c, (1 << b) + 1, pt(yv)))
     lens = [0, 1, 32, 64, 119, 300] if ctx.tier == "quick" else MSGLENS
     if lvl < 2:
         lens = [rng.choice(lens[:3]), rng.choice(lens[3:])]
@@ -705,6 +721,13 @@ def gen_ers(ctx, exe, cid, cv, scale, pool, link=False, lvl=2):
         meta.append((m, k))
     ro = ask(exe, pre, rl)
     lines += rl
+    if not link:
+        # a ring of one element made from public values only: h = pp - td G, any public key, a response that fills the bn capacity
+        pp = cv.mul(cv.g, rnd_scalar(rng, n))
+        td = rnd_scalar(rng, n)
+        h = cv.add(pp, cv.mul(cv.g, n - td))
+        c = rnd_scalar(rng, n)
+        lines.append("ers_ver %x %s %s 1 %s %s %x %x %x %x" % (td, bx(b"forged"), pt(pp), pt(h), pt(pool[-1]), c, c, (1 << CAPBITS) + 1, c))
     for idx, ((m, k), o) in enumerate(zip(meta, ro)):
         t = o.split()
         if len(t) < 4 or not t[0].startswith("pp="):
@@ -825,6 +848,325 @@ def gen_etrs(ctx, exe, cid, cv, scale, pool, lvl=2):
             V(thres_=1, m_=fm, ring_=[fe], tds_=[rnd_scalar(rng, n) for _ in tds], ys_=[rnd_scalar(rng, n) for _ in ys])
     return lines
 
+
+# -------------------------------------------------------------------------------------------------------------------------
+# pairing-based schemes (discrete-logarithm-oracle formulation: G2 public keys are given as multipliers "k:<hex>" of g2)
+
+PAIRING_CURVES = [23, 24]      # BN_P256 (pc_param_set_any), SM9_P256
+
+
+def g2raw(coords, dy=0):
+    c = list(coords)
+    c[2] += dy
+    return "raw:" + ",".join("%x" % v for v in c)
+
+
+def parse_g2(sv):
+    return None if sv == "inf" else [int(x, 16) for x in sv.split(",")]
+
+
+def key_alts(rng, n, d, qc, heavy):
+    """alterations of a G2 public key [d]g2 (qc = its coordinates if known)"""
+    l = ["k:%x" % ((d + 1) % n), "k:%x" % (n - d), "k:0", "k:%x" % n, "inf", "raw:1,2,3,4"]
+    if qc:
+        l.append(g2raw(qc, 1))
+    return l if heavy else [rng.choice(l[:2]), rng.choice(l[2:])]
+
+
+def msg_int(n, m, hashed=True):
+    return int.from_bytes(m if hashed else sha(m), "big") % n
+
+
+def gen_pairing(ctx, exe, cid, cv, scale, lvl=2):
+    rng, n = ctx.rng, cv.n
+    pre = ["pc_param %d" % cid]
+    lines = []
+    heavy0 = lvl == 2
+    pool = [cv.mul(cv.g, rnd_scalar(rng, n)) for _ in range(3)]
+    lens = [0, 1, 32, 33, 64, 120, 250] if heavy0 else [rng.choice([0, 1]), 32, rng.choice([64, 120, 250])]
+
+    def altp(P, heavy):
+        return alter_pt(rng, cv, P, heavy, pool)
+
+    # ---- G2 membership: what g2_is_valid says about multiples of the generator, the identity and junk
+    lines += ["g2_check k:%x" % rnd_scalar(rng, n), "g2_check k:0", "g2_check k:%x" % n, "g2_check inf", "g2_check raw:1,2,3,4"]
+    # ---- key generation (all schemes), first pass
+    gl = ["bls_gen %s" % seedhex(rng), "bbs_gen %s" % seedhex(rng), "zss_gen %s" % seedhex(rng), "cls_gen %s" % seedhex(rng),
+          "cli_gen %s" % seedhex(rng), "clb_gen %s 1" % seedhex(rng), "clb_gen %s 3" % seedhex(rng), "pss_gen %s" % seedhex(rng),
+          "psb_gen %s 1" % seedhex(rng), "psb_gen %s 3" % seedhex(rng)]
+    go = [kv(o) for o in ask(exe, pre, gl)]
+    lines += gl
+    G = dict(zip([l.split()[0] + (l.split()[2] if len(l.split()) > 2 else "") for l in gl], go))
+    sl, meta = [], []
+
+    def add(line, *m):
+        sl.append(line)
+        meta.append(m)
+    # BLS
+    if "d" in G["bls_gen"]:
+        d = int(G["bls_gen"]["d"], 16)
+        qc = parse_g2(G["bls_gen"]["q"])
+        for ln in lens:
+            m = message(rng, ln)
+            add("bls_sig %s %x" % (bx(m), d), "bls", d, qc, m)
+        add("bls_sig %s %x" % (bx(b"boundary"), 1), "bls", 1, None, b"boundary")
+        add("bls_sig %s %x" % (bx(b"boundary"), n - 1), "bls", n - 1, None, b"boundary")
+    # BB / ZSS
+    for sch in ("bbs", "zss"):
+        if "d" in G[sch + "_gen"]:
+            d = int(G[sch + "_gen"]["d"], 16)
+            qc = parse_g2(G[sch + "_gen"]["q"]) if sch == "bbs" else parse_pt(G[sch + "_gen"]["q"])
+            for ln in lens:
+                m = message(rng, ln)
+                for h in ((0, 1) if ln in (0, 32, 33) else (0,)):
+                    add("%s_sig %d %s %x" % (sch, h, bx(m), d), sch, d, qc, m, h)
+            # m + d = 0 (mod n): no signature exists
+            add("%s_sig 1 %s %x" % (sch, bx(((n - d) % n).to_bytes(32, "big")), d), sch + "0", d, qc, ((n - d) % n).to_bytes(32, "big"), 1)
+    # CL
+    if "t" in G["cls_gen"]:
+        x, y = int(G["cls_gen"]["t"], 16), int(G["cls_gen"]["u"], 16)
+        for ln in lens:
+            m = message(rng, ln)
+            add("cls_sig %s %s %x %x" % (seedhex(rng), bx(m), x, y), "cls", (x, y), m)
+    if "v0" in G["cli_gen"]:
+        t, u, v = (int(G["cli_gen"][k], 16) for k in ("t", "u", "v0"))
+        for ln in lens[:4]:
+            m = message(rng, ln)
+            r = rng.choice([0, 1, rnd_scalar(rng, n)])
+            add("cli_sig %s %s %x %x %x %x" % (seedhex(rng), bx(m), r, t, u, v), "cli", (t, u, v), m, r)
+    for l in (1, 3):
+        g = G["clb_gen%d" % l]
+        if "t" in g:
+            t, u = int(g["t"], 16), int(g["u"], 16)
+            vs = [int(g["v%d" % i], 16) for i in range(l - 1)]
+            for _ in range(2 if heavy0 else 1):
+                ms = [message(rng, rng.choice(lens)) for _ in range(l)]
+                add("clb_sig %s %d %s %x %x %s" % (seedhex(rng), l, " ".join(bx(m) for m in ms), t, u, " ".join("%x" % v for v in vs)), "clb", (t, u, vs), ms)
+    # PS
+    if "r" in G["pss_gen"]:
+        r, s0 = int(G["pss_gen"]["r"], 16), int(G["pss_gen"]["s0"], 16)
+        for mv in [0, 1, n - 1, rnd_scalar(rng, n), rnd_scalar(rng, n)][:(5 if heavy0 else 3)]:
+            add("pss_sig %s %x %x %x" % (seedhex(rng), mv, r, s0), "pss", (r, [s0]), [mv])
+    for l in (1, 3):
+        g = G["psb_gen%d" % l]
+        if "r" in g:
+            r = int(g["r"], 16)
+            ss = [int(g["s%d" % i], 16) for i in range(l)]
+            for _ in range(2 if heavy0 else 1):
+                ms = [rng.choice([0, 1, rnd_scalar(rng, n)]) for _ in range(l)]
+                add("psb_sig %s %d %s %x %s" % (seedhex(rng), l, " ".join("%x" % m for m in ms), r, " ".join("%x" % v for v in ss)), "psb", (r, ss), ms)
+    so = ask(exe, pre, sl)
+    lines += sl
+    seen = {}
+    for mt, o in zip(meta, so):
+        k = kv(o)
+        sch = mt[0]
+        heavy = heavy0 and seen.get(sch, 0) < scale
+        seen[sch] = seen.get(sch, 0) + 1
+        if sch == "bls":
+            _, d, qc, m = mt
+            if "s" not in k:
+                continue
+            S = parse_pt(k["s"])
+
+            def V(S_=S, m_=m, K_="k:%x" % d):
+                lines.append("bls_ver %s %s %s" % (pt(S_), bx(m_), K_))
+            V()
+            V(K_="k:%x" % (d + n))                   # the same key
+            for P in altp(S, heavy):
+                V(S_=P)
+            for mm in mutate_msg(rng, m)[:(7 if heavy else 2)]:
+                V(m_=mm)
+            for K in key_alts(rng, n, d, qc, heavy):
+                V(K_=K)
+            hm = parse_pt(k["hm"])
+            d2 = rnd_scalar(rng, n)
+            V(S_=cv.mul(hm, d2), K_="k:%x" % d2)     # a signature under another key, presented with that key: valid
+            V(S_=cv.mul(hm, d2))
+        elif sch in ("bbs", "zss", "bbs0", "zss0"):
+            _, d, qc, m, h = mt
+            base = sch[:3]
+            mi = msg_int(n, m, h == 1)
+            if sch.endswith("0"):
+                # whatever the signer answered, no signature verifies for this message
+                if base == "bbs":
+                    lines.append("bbs_ver %s 1 %s k:%x" % (pt(cv.g), bx(m), d))
+                    lines.append("bbs_ver inf 1 %s k:%x" % (bx(m), d))
+                else:
+                    lines.append("zss_ver k:1 1 %s %s" % (bx(m), pt(qc)))
+                    lines.append("zss_ver inf 1 %s %s" % (bx(m), pt(qc)))
+                continue
+            if "s" not in k:
+                continue
+            if base == "bbs":
+                S = parse_pt(k["s"])
+
+                def V(S_=S, m_=m, K_="k:%x" % d, h_=h):
+                    lines.append("bbs_ver %s %d %s %s" % (pt(S_), h_, bx(m_), K_))
+                V()
+                if mi and seen[sch] <= 2:
+                    # identity public key: [1/m]g1 satisfies the pairing equation for the message without any secret
+                    V(S_=cv.mul(cv.g, pow(mi, -1, n)), K_="inf")
+                    V(S_=cv.mul(cv.g, pow(mi, -1, n)), K_="k:0")
+                V(K_="k:%x" % (d + n))
+                V(h_=1 - h)
+                if h == 0:
+                    V(m_=sha(m), h_=1)                # the two modes agree on the digest
+                for P in altp(S, heavy):
+                    V(S_=P)
+                for mm in mutate_msg(rng, m)[:(7 if heavy else 2)]:
+                    V(m_=mm)
+                for K in key_alts(rng, n, d, qc, heavy):
+                    V(K_=K)
+                if h == 1:
+                    V(m_=(mi + n).to_bytes(33, "big"))   # the same residue: valid
+            else:
+                t = pow((mi + d) % n, -1, n)
+                sc = parse_g2(k["s"])
+
+                def V(S_="k:%x" % t, m_=m, Q_=qc, h_=h):
+                    lines.append("zss_ver %s %d %s %s" % (S_, h_, bx(m_), pt(Q_)))
+                V()
+                if mi and seen[sch] <= 2:
+                    V(S_="k:%x" % pow(mi, -1, n), Q_=None)      # identity public key
+                V(S_="k:%x" % (t + n))
+                V(h_=1 - h)
+                if h == 0:
+                    V(m_=sha(m), h_=1)
+                for K in key_alts(rng, n, t, sc, heavy):
+                    V(S_=K)
+                if heavy and sc:
+                    V(S_=g2raw(sc))                   # the library's own encoding of the signature (not decided by the specification)
+                for P in altp(qc, heavy):
+                    V(Q_=P)
+                for mm in mutate_msg(rng, m)[:(7 if heavy else 2)]:
+                    V(m_=mm)
+        elif sch == "cls":
+            _, (x, y), m = mt
+            if "c" not in k:
+                continue
+            a, b, c = parse_pt(k["a"]), parse_pt(k["b"]), parse_pt(k["c"])
+
+            def V(a_=a, b_=b, c_=c, m_=m, X_="k:%x" % x, Y_="k:%x" % y):
+                lines.append("cls_ver %s %s %s %s %s %s" % (pt(a_), pt(b_), pt(c_), bx(m_), X_, Y_))
+            V()
+            for P in altp(a, heavy):
+                V(a_=P)
+            for P in altp(b, False):
+                V(b_=P)
+            for P in altp(c, heavy):
+                V(c_=P)
+            for mm in mutate_msg(rng, m)[:(5 if heavy else 2)]:
+                V(m_=mm)
+            for K in key_alts(rng, n, x, None, heavy):
+                V(X_=K)
+            for K in key_alts(rng, n, y, None, False):
+                V(Y_=K)
+            V(X_="k:%x" % y, Y_="k:%x" % x)
+            # re-randomised signature: ([t]a, [t]b, [t]c) is another valid signature of the same message
+            t = rnd_scalar(rng, n)
+            V(a_=cv.mul(a, t), b_=cv.mul(b, t), c_=cv.mul(c, t))
+            V(a_=cv.mul(a, t), b_=cv.mul(b, t))
+        elif sch == "cli":
+            _, (t, u, v), m, r = mt
+            if "c" not in k:
+                continue
+            P5 = [parse_pt(k[x]) for x in ("a", "A", "b", "B", "c")]
+
+            def V(P_=P5, m_=m, r_=r, K_=("k:%x" % t, "k:%x" % u, "k:%x" % v)):
+                lines.append("cli_ver %s %s %x %s" % (" ".join(pt(x) for x in P_), bx(m_), r_, " ".join(K_)))
+            V()
+            for i in range(5):
+                for P in altp(P5[i], heavy and i in (0, 4))[:(None if heavy else 1)]:
+                    V(P_=P5[:i] + [P] + P5[i + 1:])
+            for mm in mutate_msg(rng, m)[:2]:
+                V(m_=mm)
+            V(r_=(r + 1) % n)
+            V(r_=r + n)                                # the same residue: valid
+            for i, sc in enumerate((t, u, v)):
+                for K in key_alts(rng, n, sc, None, False):
+                    Ks = ["k:%x" % t, "k:%x" % u, "k:%x" % v]
+                    Ks[i] = K
+                    V(K_=Ks)
+            s = rnd_scalar(rng, n)
+            V(P_=[cv.mul(x, s) for x in P5])           # re-randomised: valid
+        elif sch == "clb":
+            _, (t, u, vs), ms = mt
+            l = len(ms)
+            if "c" not in k:
+                continue
+            a, b, c = parse_pt(k["a"]), parse_pt(k["b"]), parse_pt(k["c"])
+            As = [parse_pt(k["A%d" % i]) for i in range(l - 1)]
+            Bs = [parse_pt(k["B%d" % i]) for i in range(l - 1)]
+
+            def V(a_=a, b_=b, c_=c, As_=As, Bs_=Bs, ms_=ms, K_=None):
+                K_ = K_ or ["k:%x" % t, "k:%x" % u] + ["k:%x" % v for v in vs]
+                lines.append("clb_ver %d %s %s %s" % (l, " ".join(pt(x) for x in [a_, b_, c_] + As_ + Bs_), " ".join(bx(m) for m in ms_), " ".join(K_)))
+            V()
+            for P in altp(a, False):
+                V(a_=P)
+            for P in altp(b, False):
+                V(b_=P)
+            for P in altp(c, heavy):
+                V(c_=P)
+            for i in range(l - 1):
+                for P in altp(As[i], False)[:1]:
+                    V(As_=As[:i] + [P] + As[i + 1:])
+                for P in altp(Bs[i], False)[:1]:
+                    V(Bs_=Bs[:i] + [P] + Bs[i + 1:])
+            for i in range(l):
+                for mm in mutate_msg(rng, ms[i])[:1]:
+                    V(ms_=ms[:i] + [mm] + ms[i + 1:])
+            if l > 1:
+                V(ms_=ms[::-1])
+                V(As_=As[::-1], Bs_=Bs[::-1])
+            Ks = ["k:%x" % t, "k:%x" % u] + ["k:%x" % v for v in vs]
+            for i in range(len(Ks)):
+                for K in key_alts(rng, n, [t, u] + vs and ([t, u] + vs)[i], None, False)[:(2 if i < 2 else 1)]:
+                    V(K_=Ks[:i] + [K] + Ks[i + 1:])
+        elif sch in ("pss", "psb"):
+            _, (r, ss), ms = mt
+            l = len(ms)
+            if "b" not in k:
+                continue
+            a, b = parse_pt(k["a"]), parse_pt(k["b"])
+            gk = rnd_scalar(rng, n)
+
+            def V(a_=a, b_=b, ms_=ms, g_="k:%x" % gk, x_="m:%x" % r, ys_=None):
+                ys_ = ys_ or ["m:%x" % v for v in ss]
+                if sch == "pss":
+                    lines.append("pss_ver %s %s %s %s %s %s" % (pt(a_), pt(b_), hx(ms_[0]), g_, x_, ys_[0]))
+                else:
+                    lines.append("psb_ver %s %s %d %s %s %s %s" % (pt(a_), pt(b_), l, " ".join(hx(m) for m in ms_), g_, x_, " ".join(ys_)))
+            V()
+            V(g_="k:1")                                  # the same key over another generator: valid
+            V(g_="k:1", x_="k:%x" % r, ys_=["k:%x" % v for v in ss])      # keys given absolutely
+            for P in altp(a, heavy):
+                V(a_=P)
+            for P in altp(b, heavy):
+                V(b_=P)
+            for i in range(l):
+                V(ms_=ms[:i] + [(ms[i] + 1) % n] + ms[i + 1:])
+                V(ms_=ms[:i] + [ms[i] + n] + ms[i + 1:])          # the same residue: valid
+                V(ms_=ms[:i] + [ms[i] - n] + ms[i + 1:])          # negative representative of the same residue
+            if l > 1:
+                V(ms_=ms[::-1])
+            V(x_="m:%x" % ((r + 1) % n))
+            V(x_="m:0")
+            V(x_="inf")
+            V(g_="k:0")
+            V(g_="inf")
+            V(g_="raw:1,2,3,4")
+            for i in range(l):
+                ys = ["m:%x" % v for v in ss]
+                for alt in ("m:%x" % ((ss[i] + 1) % n), "m:0", "inf"):
+                    V(ys_=ys[:i] + [alt] + ys[i + 1:])
+            t = rnd_scalar(rng, n)
+            V(a_=cv.mul(a, t), b_=cv.mul(b, t))          # re-randomised: valid
+            # (O, O) satisfies the pairing equation for every message
+            V(a_=None, b_=None)
+    return lines
+
 # -------------------------------------------------------------------------------------------------------------------------
 CVS = {}
 
@@ -862,6 +1204,12 @@ def streams(ctx, scale=1):
         lines += gen_ers(ctx, exe, cid, cv, scale, pool, True, lvl(3))
         lines += gen_etrs(ctx, exe, cid, cv, scale, pool, lvl(4))
     res.append({"name": "ec2-base", "cfg": "base", "exe": exe, "lines": lines})
+    lines = ["cfg"]
+    for ci, cid in enumerate(PAIRING_CURVES):
+        if cid in CVS:
+            lines.append("pc_param %d" % cid)
+            lines += gen_pairing(ctx, exe, cid, CVS[cid], scale, 2 if ctx.tier != "quick" or (ci + ctx.seed) % 2 == 0 else 1)
+    res.append({"name": "pairing-base", "cfg": "base", "exe": exe, "lines": lines})
     res.append({"name": "rsa-pss", "cfg": "base", "exe": exe, "lines": ["cfg"] + gen_rsa(ctx, exe, "pkcs2", scale)})
     return res
 
@@ -919,10 +1267,21 @@ def matches_finding(f, r):
     t = r["line"].split()
     pred = f.get("pred")
     op = t[0]
+    if pred == "pairing_identity_key":
+        if op in ("pss_ver", "psb_ver", "bbs_ver") and _accepted(r):
+            cv = CVS.get(int(r["context"].split()[1])) if r.get("context") else None
+            for x in t[1:]:
+                if x == "inf" and t.index(x) > 2:
+                    return True
+                if x[:2] in ("k:", "m:") and cv and int(x[2:], 16) % cv.n == 0:
+                    return True
+        return op == "zss_ver" and t[4] == "inf" and _accepted(r)
+    if pred == "verifier_returns_err":
+        return op in ("pokdl_ver", "pokor_ver", "sokdl_ver", "sokor_ver", "ers_ver", "smlers_ver", "etrs_ver") and "v=1 err" in r["got"]
     if pred == "vbnn_r_identity":
         return op == "vbnn_ver" and t[1] == "inf" and r["got"].startswith("CRASH")
     if pred == "scalar_range":
-        return op in SCALAR_POS and _accepted_any(r) and _out_of_range(r)
+        return op in SCALAR_POS and _accepted_any(r) and _out_of_range(r) and "v=1 err" not in r["got"]
     if pred == "etrs_unbound":
         return op == "etrs_ver" and _accepted_any(r) and not _out_of_range(r)
     if pred == "ecdsa_identity_key":
